@@ -103,7 +103,7 @@ def generate(seed, tier):
     return {"io": simfs.IoConfig.draw(swarm), "config": config, "table": table, "via": via,
             "one_shot_rows": swarm.random() < 0.5,
             # reading back with a validation limit: rows beyond it are returned all the same
-            "read_limit": swarm.choice([None, None, 0, 1, 2]),
+            "read_limit": swarm.choice([None, None, 0, 1, 2]), "preamble": swarm.random() < 0.25,
             "explicit_skip": swarm.random() < 0.5,
             "target": swarm.choice(["stream", "path"]), "source": swarm.choice(["stream", "path"])}
 
@@ -117,7 +117,7 @@ def sweep_slice(tier, start, count):
         yield {"property": ID, "sweep_config": index, "tables": 4 if tier == "quick" else 200}
 
 
-def round_trip(data_format, table, fs, target, source):
+def round_trip(data_format, table, fs, target, source, preamble=False):
     """Write ``table`` and read it back; returns ("ok", rows) / ("write-exc", e) / ("read-exc", e)."""
     from cutplace import rowio
 
@@ -134,7 +134,12 @@ def round_trip(data_format, table, fs, target, source):
         text = stream.getvalue()
         if source == "path" or source == "stream" and fs is not None and fs.config.regime != "whole":
             fs.store("out.csv", text.encode("utf-8"))
-    if text is not None and not (fs is not None and "out.csv" in fs.files):
+    if preamble and source == "stream":
+        # the table sits behind a banner line the caller has consumed itself before handing the stream over
+        data = text.encode("utf-8") if text is not None else bytes(fs.files["out.csv"])
+        kind = "stringio" if fs is None or fs.config.regime == "whole" else "stream"
+        reader_source = lib.stream_behind_preamble(fs, "out.csv", data, "utf-8", kind)
+    elif text is not None and not (fs is not None and "out.csv" in fs.files):
         reader_source = io.StringIO(text, newline="")
     elif source == "path":
         reader_source = "out.csv"
@@ -303,7 +308,9 @@ def execute(scenario):
                 result.probe("read-back-with-validation-limit")
             result.probe("via-validating-writer-and-reader")
         else:
-            status, value = round_trip(data_format, table, fs, scenario["target"], scenario["source"])
+            status, value = round_trip(data_format, table, fs, scenario["target"], scenario["source"], scenario.get("preamble"))
+            if scenario.get("preamble") and scenario["source"] == "stream":
+                result.probe("stream-handed-over-behind-a-preamble")
     history.add("client", "round-trip", {"status": status, "value": value if status == "ok" else lib.error_summary(value)})
     delimiter, quote, escape, quoting, line_delimiter = config
     specials = set()
